@@ -14,6 +14,7 @@
      cadd(n, isdefault, starting, defname, desc, fac, cb, r, delegated, in = [n, desc, r, fac, cb])   a ComponentContext's add call and the
                                                    context-level call it delegated to (recorded within it)
      csvc(func, name, action, r, delegated, in = [func, name, action, r])   the same for ComponentContext.start_service_task
+     cget(c, t, n, api, opt, r, vid)               what a lookup through a ComponentContext (a view of context c) finally gave its caller
    new, enter, exit.end, add, addfac, get, getall also carry task and cur (the context current for the task when the call returned;
    0 none, -1 not known); all but exit.begin with post = << [c, st, res = <<t, n, vid, gen>>.., fac = <<t, n, fid>>..] .. >> for every context.
    "other" = the call ended in a way the specification does not describe (a factory that raised, a cancellation): nothing
@@ -163,6 +164,16 @@ StepCAdd ==
            ELSE IF E.in.cb # E.cb THEN "C01:teardown-callback-lost-between-the-component-and-the-context"
            ELSE IF E.in.r # E.r THEN "C03,C18:outcome-of-the-delegated-registration-not-passed-on"
            ELSE "", "cadd")
+\* A lookup through a ComponentContext gives what the context it is a view of gives (it may wait for the resource during start-up, and
+\* be cancelled while waiting: "other"), and it refuses like that context refuses when the context cannot be used
+StepCGet ==
+  LET o == GetO(E.c, E.t, E.n, E.api, E.opt) IN
+  /\ UNCHANGED <<core, obs, vbind, fbind>>
+  /\ Judge(IF E.r = "other" THEN (IF o.r = "RuntimeError" THEN "C13:component-context-lookup-on-an-unusable-context-did-not-raise" ELSE "")
+           ELSE IF StateClash(IF o.r \in {"val", "gen"} THEN "val" ELSE o.r, E.r) THEN "C13:component-context-lookup-state-check"
+           ELSE IF E.r = "val" THEN (IF o.r # "val" \/ E.vid # Real(vbind, o.v) THEN "C02:component-context-lookup-differs-from-the-lookup-in-its-context" ELSE "")
+           ELSE IF E.r = "None" THEN (IF o.r \notin {"None", "gen"} THEN "C02:component-context-lookup-differs-from-the-lookup-in-its-context" ELSE "")
+           ELSE "", "cget")
 \* ComponentContext.start_service_task delegates with the arguments it was given (function, name, teardown action)
 StepCSvc ==
   /\ UNCHANGED <<core, obs, vbind, fbind>>
@@ -188,6 +199,7 @@ TNext ==
             [] E.ev = "getall" -> StepGetAll
             [] E.ev = "cadd" -> StepCAdd
             [] E.ev = "csvc" -> StepCSvc
+            [] E.ev = "cget" -> StepCGet
             [] OTHER -> Outside(E.reason)
 Report == (l = Len(Traces[tid].events) + 1) =>
             PrintT(ToJson([end |-> Traces[tid].id, ok |-> ok, step |-> at, why |-> why, live |-> live, hits |-> SetToSeq(hits)]))
